@@ -126,6 +126,12 @@ theorem substitute_any {v v' : Ent} {mods mods' : List Ent} {pid pname : Nat} {p
     ∃ p', (assemble v' mods' pid pname).1 = .ok p' ∧ p'.rcd.seq = p.rcd.seq ∧ p'.unused = p.unused :=
   assemble_sameRole h hv hm
 
+/-- … including failures: inputs playing the same roles fail with the same error -/
+theorem substitute_any_outcome {v v' : Ent} {mods mods' : List Ent} (pid pname : Nat)
+    (hv : SameRole v v') (hm : List.Forall₂ SameRole mods mods') :
+    OutcomeSame (assemble v mods pid pname).1 (assemble v' mods' pid pname).1 :=
+  assemble_sameRole_outcome pid pname hv hm
+
 /-! non-vacuity: see `Moclo.C01` example; a replacement with another target changes only that segment -/
 
 end Moclo.C19
